@@ -39,6 +39,7 @@ class Contract:
     # checks it on the real function; obligations that used one are "discharged modulo bounded"
     assumed_ensures: list[tuple[str, str]] = field(default_factory=list)
     defaults: dict[str, Any] = field(default_factory=dict)  # default values of optional parameters
+    locals_sig: dict[str, str] = field(default_factory=dict)  # locals holding lists that need the array encoding
     pure: bool = False  # the result is a function of the arguments (same arguments, same result)
     wf: bool = True  # record parameters are assumed (and required at call sites) to be well-formed
 
